@@ -103,7 +103,9 @@ func ReceiveFeedback(item *models.Item) error {
 	item.SetSource(models.ItemSourceFeedback)
 	_, loaded := globalReactor.stateTable.Swap(item.GetID(), item)
 	if !loaded {
-		// An item sent to the feedback channel should be present on the state table, if not present reactor should error out
+		// An item sent to the feedback channel should be present on the state table, if not present reactor should error out.
+		// The swap stored it though: remove it again, it holds no token and must not become tracked.
+		globalReactor.stateTable.CompareAndDelete(item.GetID(), item)
 		return ErrFeedbackItemNotPresent
 	}
 	select {
